@@ -106,6 +106,9 @@ def stage(ck, pid, thorough):
     flush()
     ck.count("universe_cases_replayed_into_code", k)
     # trace validation proper: DataLoops replayed action by action against the snapshots (Trace_LoopSteps)
+    if not step_recs:
+        ck.note("step-level binding skipped: the loop heads of the lookup loops were not found (restructured code)")
+        return merged, flagged, decls, opts
     sres = tlc.judge("Trace_LoopSteps", "Trace_LoopSteps.cfg", step_recs, workers=16)
     nsnap = sum(len(r["steps"]) for r in step_recs)
     if sres.distinct != nsnap:
